@@ -17,7 +17,8 @@
      SUBS and all six conditional branches (C07_selection_compare, C07_selection_compare_zero,
      C07_flags_decide_signed_comparison, C07_selection_conditional_branch), label loading, indirect
      jumps, tag dispatch (C07_selection_load_label, C07_selection_jump, C07_selection_add_and_jump,
-     C07_selection_switch_dispatch - the sequence repaired by fix: 3781c3f), and the agreement of the
+     C07_selection_switch_dispatch - the sequence repaired by fix: 3781c3f), the move code of explicit
+     substitutions as a simultaneous assignment (C07_selection_parallel_moves), and the agreement of the
      model's address arithmetic with the crate's values (C07_constants_agree).
 
    NOT proved (gap of C07_selection_partial):
@@ -25,15 +26,16 @@
        block pointer in a spill slot with X10 evacuated), acquire_block, erase_block, share_block_n;
      - L1 -> L2 for print_i64 (save/restore of caller-saved registers; that is C13's theorem) and for
        the routine prologue/epilogue;
-     - the instantiation of the generic parallel-move theorem (C11) with C07_selection_mov and
-       store/restore_temporary;
+     - the reference-count updates that accompany a substitution (erase/share) and the glue between
+       `connections` (typing contexts -> move graph) and C07_selection_parallel_moves;
      - the generic simulation L0 -> L1 (code_statement over the 11 statement forms, labels, tables).
    Whole-program preservation is therefore established by the correspondence check (model = Rust on
    every program) plus execution of the implementation's output on the ISA model against the AxCut
    machine on every run (see the evidence file), and stated below as C07_codegen_correct_statement. *)
 From Coq Require Import List ZArith NArith String Bool.
+From SCC Require Import Model.ParMoves.
 From SCC Require Import Lang.AxSyn Sem.AxSem Model.Backend Model.A64 Sem.A64Sem
-  Proof.A64State Proof.A64ImmHw Proof.A64Imm Proof.A64Sel.
+  Proof.A64State Proof.A64ImmHw Proof.A64Imm Proof.A64Sel Proof.A64PM.
 Import ListNotations.
 Open Scope Z_scope.
 
@@ -156,6 +158,22 @@ Theorem C07_selection_switch_dispatch :
                heap s' = heap s /\ out s' = out s.
 Proof. exact a64_switch_dispatch_ok. Qed.
 Print Assumptions C07_selection_switch_dispatch.
+
+(* explicit substitutions (C11 on AArch64): the code emitted for a move graph in which every target
+   has one source - chains, cycles (one value saved in X2), fan-out, spill slots on either side
+   (spill-to-spill through X3) - performs the assignment simultaneously: every target ends up with the
+   initial value of its source, every other variable temporary is unchanged.  Generic theorem
+   (Model/ParMoves.parallel_moves_correct) composed with C07_selection_mov and the save/restore code. *)
+Theorem C07_selection_parallel_moves :
+  forall (im : image) (am : amap atemp) (code : list acode) (s : astate) (sp : Z),
+    frame_ok s sp ->
+    indeg1 atemp a64_teqb am -> nodup_targets atemp a64_teqb am -> amap_ok atemp operand_ok am ->
+    parallel_moves_code a64_backend am = Ok code ->
+    exists s', run_straight im code s = MOk s' /\ frame_ok s' sp /\ heap s' = heap s /\ out s' = out s /\
+               (forall a b, edge atemp a64_teqb am a b -> lget s' sp b = lget s sp a) /\
+               (forall u, operand_ok u -> (forall a, ~ edge atemp a64_teqb am a u) -> lget s' sp u = lget s sp u).
+Proof. exact a64_parallel_moves_ok. Qed.
+Print Assumptions C07_selection_parallel_moves.
 
 (* the model's address arithmetic is the crate's (values regenerated from the code), and the
    jump-table stride is the size of a B instruction *)
